@@ -291,6 +291,71 @@ var disturbers = []disturber{
 	{"ls_args", "list", "m.Match(`$_, $_`)%[1]s.Report(`%[2]s`)", "", false},
 }
 
+// typeDisturbers (deadcode mode, file typef.go of every load history but the first): rules whose Where() asks for the TYPE / constant
+// value / purity of the very expressions the walker decides dead code by -- the condition of an `if` (with and without init / else),
+// the operand of `!`, the operands of && and ||, loop conditions, the named constants themselves, conversions, parenthesised and compared expressions -- through the filters
+// that go to go/types' records of the expression (Type.Is / Underlying().Is / ConvertibleTo / AssignableTo / Size, Const, Pure,
+// Value.Int, Comparable, Addressable). They run on the IfStmt / its condition BEFORE the walker looks the condition's constant up.
+var typeDisturbers = []disturber{
+	{"ty_if", "type", "m.Match(`if $c { $*_ }`, `if $c { $*_ } else { $*_ }`, `if $_; $c { $*_ }`, `if $c { $*_ } else if $*_ { $*_ }`).Where(m[\"c\"].Type.Is(`bool`)%[1]s).Report(`%[2]s`)", "", true},
+	{"ty_ifund", "type", "m.Match(`if $c { $*_ }`, `if $c { $*_ } else { $*_ }`, `if $c { $*_ } else if $*_ { $*_ }`, `if $_; $c { $*_ } else { $*_ }`).Where(m[\"c\"].Type.Underlying().Is(`bool`)%[1]s).Report(`%[2]s`)", "", true},
+	{"ty_ifconst", "type", "m.Match(`if $c { $*_ }`, `if $c { $*_ } else { $*_ }`, `if $c { $*_ } else if $*_ { $*_ }`).Where((m[\"c\"].Const || m[\"c\"].Type.Size > 0)%[1]s).Report(`%[2]s`)", "", true},
+	{"ty_ifpure", "type", "m.Match(`if $c { $*_ }`, `if $c { $*_ } else { $*_ }`, `if $c { $*_ } else if $*_ { $*_ }`).Where((m[\"c\"].Pure || m[\"c\"].Addressable || m[\"c\"].Comparable)%[1]s).Report(`%[2]s`)", "", true},
+	{"ty_not", "type", "m.Match(`!$c`).Where(m[\"c\"].Type.Is(`bool`)%[1]s).Report(`%[2]s`)", "", true},
+	{"ty_andor", "type", "m.Match(`$c && $d`, `$c || $d`).Where((m[\"c\"].Type.ConvertibleTo(`bool`) && m[\"d\"].Type.AssignableTo(`bool`))%[1]s).Report(`%[2]s`)", "", true},
+	{"ty_for", "type", "m.Match(`for $c { $*_ }`, `for $_; $c; $_ { $*_ }`).Where(m[\"c\"].Type.Is(`bool`)%[1]s).Report(`%[2]s`)", "", true},
+	{"ty_ident", "type", "m.Match(`af`, `at`, `a2f`, `a2t`, `av`, `cf`, `ct`, `tt`, `tf`).Where(m[\"$$\"].Type.Underlying().Is(`bool`)%[1]s).Report(`%[2]s`)", "", true},
+	{"ty_conv", "type", "m.Match(`$f($c)`).Where((m[\"f\"].Type.Is(`bool`) || m[\"$$\"].Type.Is(`bool`))%[1]s).Report(`%[2]s`)", "", true},
+	{"ty_paren", "type", "m.Match(`($c)`, `$c == $_`, `$c != $_`).Where(m[\"c\"].Type.Is(`bool`)%[1]s).Report(`%[2]s`)", "", true},
+}
+
+var typePool struct {
+	once    sync.Once
+	ok      []disturber
+	dropped []string
+}
+
+// usableTypeDisturbers: the typeDisturbers that load (alone, with a Deadcode tail).
+func usableTypeDisturbers() ([]disturber, []string) {
+	typePool.once.Do(func() {
+		for i, d := range typeDisturbers {
+			_, g := renderDisturber(d, i, "dead")
+			if _, err := loadRules("package gorules\n\nimport \"github.com/quasilyte/go-ruleguard/dsl\"\n\n" + g); err != nil {
+				typePool.dropped = append(typePool.dropped, d.Name+": "+err.Error())
+				continue
+			}
+			typePool.ok = append(typePool.ok, d)
+		}
+	})
+	return typePool.ok, typePool.dropped
+}
+
+// genTypeFile: a rules file of n of the typeDisturbers that load (plain / _dead / _live), ty_if or ty_ifund always among them.
+func genTypeFile(rng *rand.Rand, n int, serial int) (src string, kinds map[string]int, dropped []string) {
+	kinds = map[string]int{}
+	pool, dropped := usableTypeDisturbers()
+	if len(pool) == 0 {
+		return "", kinds, dropped
+	}
+	picked := []disturber{pool[rng.Intn(2)%len(pool)]}
+	for len(picked) < n {
+		picked = append(picked, pool[rng.Intn(len(pool))])
+	}
+	rng.Shuffle(len(picked), func(i, j int) { picked[i], picked[j] = picked[j], picked[i] })
+	var sb strings.Builder
+	sb.WriteString("package gorules\n\nimport \"github.com/quasilyte/go-ruleguard/dsl\"\n\n")
+	for i, d := range picked {
+		flag := []string{"", "dead", "live"}[rng.Intn(3)]
+		_, g := renderDisturber(d, serial*100+80+i, flag)
+		sb.WriteString(g + "\n")
+		kinds["type"]++
+		if flag != "" {
+			kinds["type+deadcode"]++
+		}
+	}
+	return sb.String(), kinds, dropped
+}
+
 // renderDisturber: one group. flag "" | "dead" | "live".
 func renderDisturber(d disturber, idx int, flag string) (name, src string) {
 	name = fmt.Sprintf("q%d_%s", idx, d.Name)
